@@ -1776,6 +1776,40 @@ package server
 //@   at call processChangedEntity#1 before
 //@     assert [C02:the-decoded-change-is-handed-on] $arg0 == decodedG && decodedG != nil
 //@     ghost handedOnG := true
+// the collecting wrappers (GetChanges: used by the dependency tracking and the JavaScript API; GetEntities) pass position,
+// count and mode through unchanged, collect every entity they are handed exactly once, in order, and hand back the
+// token of the read
+//@ inline server.NewChanges
+//@ assumed (*Dataset).GetContext
+//@   pure
+//@ unit (*Dataset).GetChanges
+//@   prop C02 C18 C08
+//@   ghost tokG int = 0
+//@   requires ds != nil && ds.store != nil && since >= 0
+//@   ensures [C02,C18:a-successful-read-hands-back-the-token-of-the-feed] ret1 == nil ==> ret0 != nil && ret0.NextToken == tokG
+//@   at call ProcessChanges#1 before
+//@     assert [C02,C18:position-count-and-mode-passed-to-the-feed-unchanged] $arg0 == ds && $arg1 == since && $arg2 == count && $arg3 == latestOnly
+//@   at call ProcessChanges#1
+//@     ghost tokG := $result0
+//@ unit (*Dataset).GetChanges$1
+//@   prop C02 C18
+//@   requires changes != nil
+//@   ensures [C02,C18:every-change-handed-over-is-collected-once-at-the-end-in-feed-order] len(changes.Entities) == old(len(changes.Entities)) + 1 && changes.Entities[len(changes.Entities) - 1] == entity && (forall k int :: 0 <= k && k < old(len(changes.Entities)) ==> changes.Entities[k] == old(changes.Entities[k]))
+//@ unit (*Dataset).GetEntities
+//@   prop C01
+//@   ghost tokG string = ""
+//@   requires ds != nil && ds.store != nil
+//@   requires [token-came-from-an-earlier-page-of-this-dataset] from != "" ==> tokOK(from) && tokLen(from) == 14 && tokCl(from) == 8 && tokDs(from) == ds.InternalID
+//@   ensures [C01:a-successful-listing-hands-back-the-token-of-the-listing] ret1 == nil ==> ret0 != nil && ret0.ContinuationToken == tokG
+//@   at call MapEntities#1 before
+//@     assert [C01:position-and-page-size-passed-to-the-listing-unchanged] $arg0 == ds && $arg1 == from && $arg2 == count
+//@   at call MapEntities#1
+//@     ghost tokG := $result0
+//@ unit (*Dataset).GetEntities$1
+//@   prop C01
+//@   requires var_result != nil
+//@   ensures [C01:every-listed-entity-is-collected-once-at-the-end-in-listing-order] len(var_result.Entities) == old(len(var_result.Entities)) + 1 && var_result.Entities[len(var_result.Entities) - 1] == entity && (forall k int :: 0 <= k && k < old(len(var_result.Entities)) ==> var_result.Entities[k] == old(var_result.Entities[k]))
+//@   ensures [C01:collecting-never-stops-the-listing] ret0 == nil
 //@ unit (*Dataset).MapEntities
 //@   prop C01
 //@   preserves Dataset.fullSyncStarted, Dataset.fullSyncSeen, Dataset.fullSyncID, Dataset.fullSyncLease, Dataset.store, map[uint64]int
